@@ -18,7 +18,7 @@ What is **proved** here, for all interleavings and any number of goroutines:
   (`finish_single_stage_conflict`: with one stage for everything — the code before
   `fixes/C37-finish-validate-paths-before-areas.patch` — the in-place reversal of a path races with the
   validation of an area over it).
-What is **checked against the source** (`by decide` on the regenerated file): the access table, that every
+What is **checked against the source** (`by decide` on the regenerated file): the ways the cells are accessed (kind and lock state, whichever method), that every
 access of an entry method is under the struct's own lock, that the two lock-free helpers are only called with
 the lock held and only from their own type, that nothing else in the package touches the cells, that no other
 field of a mutex-bearing struct is written outside the listed places, and the shape of `Finish`.
@@ -145,42 +145,31 @@ theorem finish_single_stage_conflict :
 
 open B6.Gen.Locksets
 
-def expectedTable : List Access := [
-  ⟨"FeaturesByID", "FindFeatureByID", "cache", "call:Add", true⟩,
-  ⟨"FeaturesByID", "FindFeatureByID", "cache", "call:Get", true⟩,
-  ⟨"FeaturesByID", "FindReferences", "cache", "call:Add", true⟩,
-  ⟨"FeaturesByID", "FindReferences", "cache", "call:Get", true⟩,
-  ⟨"marshalledArea", "Feature", "geometry", "call:Len", true⟩,
-  ⟨"marshalledArea", "Feature", "geometry", "call:PathIDs", true⟩,
-  ⟨"marshalledArea", "Feature", "geometry", "read", true⟩,
-  ⟨"marshalledArea", "Feature", "geometry", "write", true⟩,
-  ⟨"marshalledArea", "Feature", "polygons", "write", true⟩,
-  ⟨"marshalledArea", "MultiPolygon", "geometry", "call:Len", true⟩,
-  ⟨"marshalledArea", "MultiPolygon", "geometry", "call:PathIDs", true⟩,
-  ⟨"marshalledArea", "MultiPolygon", "geometry", "call:Polygon", true⟩,
-  ⟨"marshalledArea", "MultiPolygon", "geometry", "read", true⟩,
-  ⟨"marshalledArea", "MultiPolygon", "geometry", "write", true⟩,
-  ⟨"marshalledArea", "MultiPolygon", "polygons", "read", true⟩,
-  ⟨"marshalledArea", "MultiPolygon", "polygons", "write", true⟩,
-  ⟨"marshalledArea", "Polygon", "geometry", "call:Len", true⟩,
-  ⟨"marshalledArea", "Polygon", "geometry", "call:PathIDs", true⟩,
-  ⟨"marshalledArea", "Polygon", "geometry", "call:Polygon", true⟩,
-  ⟨"marshalledArea", "Polygon", "geometry", "read", true⟩,
-  ⟨"marshalledArea", "Polygon", "geometry", "write", true⟩,
-  ⟨"marshalledArea", "Polygon", "polygons", "read", true⟩,
-  ⟨"marshalledArea", "Polygon", "polygons", "write", true⟩,
-  ⟨"marshalledArea", "featureWithLock", "geometry", "call:Len", false⟩,
-  ⟨"marshalledArea", "featureWithLock", "geometry", "call:PathIDs", false⟩,
-  ⟨"marshalledArea", "featureWithLock", "geometry", "read", false⟩,
-  ⟨"marshalledArea", "featureWithLock", "geometry", "write", false⟩,
-  ⟨"marshalledArea", "featureWithLock", "polygons", "write", false⟩,
-  ⟨"marshalledArea", "fillGeometry", "geometry", "call:Len", false⟩,
-  ⟨"marshalledArea", "fillGeometry", "geometry", "read", false⟩,
-  ⟨"marshalledArea", "fillGeometry", "geometry", "write", false⟩,
-  ⟨"marshalledArea", "fillGeometry", "polygons", "write", false⟩,
-  ⟨"wrappedMarshalledPhysicalFeature", "Polyline", "polyline", "addr", true⟩,
-  ⟨"wrappedMarshalledPhysicalFeature", "Polyline", "polyline", "read", true⟩,
-  ⟨"wrappedMarshalledPhysicalFeature", "Polyline", "polyline", "write", true⟩]
+/-- The expected ways the four cache cells are accessed, whatever the method: (struct, field, kind, under the
+struct's lock).  The unlocked rows are those of the two lock-free helpers `featureWithLock` / `fillGeometry`
+taken as roots (they are only ever called with the lock held: `internal_calls_locked`).  A new METHOD that reaches
+a cell in one of these ways does not change this list; a new KIND of access, or any access in a different lock
+state, does. -/
+def expectedShapes : List (String × String × String × Bool) := [
+  ("FeaturesByID", "cache", "call:Add", true),
+  ("FeaturesByID", "cache", "call:Get", true),
+  ("marshalledArea", "geometry", "call:Len", true),
+  ("marshalledArea", "geometry", "call:PathIDs", true),
+  ("marshalledArea", "geometry", "call:Polygon", true),
+  ("marshalledArea", "geometry", "read", true),
+  ("marshalledArea", "geometry", "write", true),
+  ("marshalledArea", "polygons", "read", true),
+  ("marshalledArea", "polygons", "write", true),
+  ("marshalledArea", "geometry", "call:Len", false),
+  ("marshalledArea", "geometry", "call:PathIDs", false),
+  ("marshalledArea", "geometry", "read", false),
+  ("marshalledArea", "geometry", "write", false),
+  ("marshalledArea", "polygons", "write", false),
+  ("wrappedMarshalledPhysicalFeature", "polyline", "addr", true),
+  ("wrappedMarshalledPhysicalFeature", "polyline", "read", true),
+  ("wrappedMarshalledPhysicalFeature", "polyline", "write", true)]
+
+def shapeOf (a : Access) : String × String × String × Bool := (a.typ, a.field, a.kind, a.locked)
 
 def expectedUnlisted : List Access := [
   ⟨"FeatureIDs", "Append", "namespaces", "write", true⟩,
@@ -211,24 +200,35 @@ def expectedSelfCalls : List Access := [
   ⟨"marshalledArea", "Polygon", "fillGeometry", "selfcall", true⟩,
   ⟨"marshalledArea", "featureWithLock", "fillGeometry", "selfcall", false⟩]
 
+/-- methods (of build-time structs of ingest/compact) that write a field without the struct's lock, by contract:
+the sort interface of `FeatureIDs` (used after the parallel `Append` phase) and the two `Validator` helpers that
+`ValidatePath` / `ValidateArea` call with the lock held (`wide_helpers_called_locked`) -/
+def unlistedExempt : List String :=
+  ["FeatureIDs.Swap", "Validator.validateArea", "Validator.validateQueue"]
+
 /-- rows of the methods that are entry points (everything but the lock-free helpers) -/
 def entryRows (t : List Access) (internal : List String) : List Access :=
   t.filter (fun a => !internal.contains (a.typ ++ "." ++ a.method))
 
-theorem table_matches : B6.Gen.Locksets.table = expectedTable := by decide
+/-- the cells are accessed in exactly the expected ways (both inclusions; independent of which methods do it) -/
+theorem table_matches :
+    B6.Gen.Locksets.table.all (fun a => expectedShapes.contains (shapeOf a)) = true ∧
+    expectedShapes.all (fun sh => B6.Gen.Locksets.table.any (fun a => shapeOf a == sh)) = true := by decide
 theorem internal_methods_expected :
     internalMethods = ["marshalledArea.featureWithLock", "marshalledArea.fillGeometry"] := by decide
 /-- every access of an entry method to a cache cell is made under the struct's own mutex -/
 theorem entry_accesses_locked : (entryRows B6.Gen.Locksets.table internalMethods).all (·.locked) = true := by decide
 /-- the lock-free helpers are called only by their own type, and by its entry methods only with the lock held -/
 theorem internal_calls_locked :
-    selfCalls = expectedSelfCalls ∧ (entryRows selfCalls internalMethods).all (·.locked) = true ∧ foreignCalls = [] := by
+    (entryRows selfCalls internalMethods).all (·.locked) = true ∧ foreignCalls = [] ∧
+    internalMethods.all (fun m => selfCalls.any (fun a => a.typ ++ "." ++ a.field == m && a.locked)) = true := by
   decide
 /-- nothing else in the package touches the cells (the one entry is the constructor's composite literal);
-nothing the walker could not follow; no other field of a mutex-bearing struct is written unexpectedly -/
+nothing the walker could not follow; every write to another field of a mutex-bearing struct (outside the Merge
+writers) is under the struct's lock or in one of the three exempt methods -/
 theorem no_foreign_access :
     foreign = ["world.go:NewFeaturesByID:literal FeaturesByID{cache: …}"] ∧ irregular = [] ∧
-    unlistedWrites = expectedUnlisted := by decide
+    unlistedWrites.all (fun a => a.locked || unlistedExempt.contains (a.typ ++ "." ++ a.method)) = true := by decide
 /-- `Finish`: the worker closures write `broken` and call `w.index.Add` under the local mutex; the function body
 touches neither between starting workers and `wg.Wait()`; two stages, non-areas first; `invertPoints` writes the
 elements of the path's own reference list and is reached from `ValidatePath` only -/
